@@ -261,6 +261,31 @@ def ev(e, env):
                               lambda D: env.bfun_para(bf, D), e.D)
     if T is vf.VarRefExpr:
         return ev_varref(e, env)
+    # composite tensor nodes: own definition of the operation (NOT the node's .at(), which is part of the code under test)
+    if T is vf.MatMatExpr:
+        A, B = ev(e.x, env), ev(e.y, env)
+        if len(A[0]) != len(B): raise ValueError('matrix product of incompatible shapes')
+        return [[_sum([A[i][k] * B[k][j] for k in range(len(B))]) for j in range(len(B[0]))] for i in range(len(A))]
+    if T is vf.MatVecExpr:
+        A, x = ev(e.x, env), ev(e.y, env)
+        if len(A[0]) != len(x): raise ValueError('matrix-vector product of incompatible shapes')
+        return [_sum([A[i][k] * x[k] for k in range(len(x))]) for i in range(len(A))]
+    if T is vf.OuterProdExpr:
+        x, y = ev(e.x, env), ev(e.y, env)
+        return [[xi * yj for yj in y] for xi in x]
+    if T is vf.VectorCrossExpr:
+        x, y = ev(e.x, env), ev(e.y, env)
+        return [x[1] * y[2] - x[2] * y[1], x[2] * y[0] - x[0] * y[2], x[0] * y[1] - x[1] * y[0]]
+    if T is vf.TensorOperExpr and e.oper in ('+', '-', '*', '/') and len(e.children) == 2:
+        a, b = ev(e.x, env), ev(e.y, env)
+        def ew(p, q):
+            if isinstance(p, list): return [ew(pp, qq) for pp, qq in zip(p, q)]
+            if e.oper == '+': return p + q
+            if e.oper == '-': return p - q
+            if e.oper == '*': return p * q
+            if env.record_denoms: env.denoms.append(q)
+            return p / q
+        return ew(a, b)
     if e.is_vector():
         return [ev(e[i], env) for i in range(e.shape[0])]
     if e.is_matrix():
